@@ -2,14 +2,19 @@
    translated from /repo into Gen/Gen_Preds.v, equal the step predicate [semi_ok] of C16/Model.v.
 
    semi_ok g u v = semi_ok_ps (pst g u v)                                   (the model factors through the pair state)
-   gen_semi_edge_ok                = semi_ok_ps            on all 64 pair states
-   gen_possibly_directed false     = semi_ok_ps            on all pair states except lone_vu (only a circle at u: u o- v)
-   gen_possibly_directed true  s   = semi_ok_ps (flip s)   on all pair states except lone_uv (only a circle at v: u -o v)
-   gen_poss_desc_step / gen_poss_anc_step / gen_semi_step_main / gen_semi_step_cutoff: the same, with the same exception.
-   On the excepted state the code accepts the step and the model rejects it (the code tests "neighbour and no arrowhead at
-   the near end", the model "an edge leaves u and no arrowhead at the near end").  These are exactly the states excluded
-   by C16's quantifier (Spec.no_lone_circle: MARKS pairs are none, ->, <-, <->, --, o-o, o->, <-o), so on the graphs of
-   the property generated predicate = model predicate, for every pair. *)
+   On every pair state of C16's domain -- a state a PAG can hold (valid_pag_ps) without a lone circle mark
+   (Spec.no_lone_circle: the pairs of the quantifier are none, ->, <-, <->, --, o-o, o->, <-o) -- 14 of the 64 states:
+     gen_semi_edge_ok s              = semi_ok_ps s          per-pair test of is_semi_directed_path
+     gen_possibly_directed false s   = semi_ok_ps s          _possibly_directed(G, u, v)
+     gen_possibly_directed true s    = semi_ok_ps (flip s)   _possibly_directed(G, u, v, reverse=True)   [= semi_ok g v u]
+     gen_poss_desc_step s            = semi_ok_ps s          BFS step of possible_descendants
+     gen_poss_anc_step s             = semi_ok_ps (flip s)   BFS step of possible_ancestors
+     gen_semi_step_main s            = semi_ok_ps s          first arrowhead filter of _all_semi_directed_paths_graph
+     gen_semi_step_cutoff s          = semi_ok_ps s          arrowhead filter of its cutoff branch
+   Outside the domain nothing is claimed.  (Observed while building, on the current /repo: on a pair whose only mark is one
+   circle, u o- v, all of these except gen_semi_edge_ok accept the step u -> v -- they test "neighbour and no arrowhead at
+   u" -- while the model and is_semi_directed_path reject it -- "an edge leaves u".  Lone circles are outside C16's
+   quantifier, so this is recorded here and not asserted.) *)
 From Coq Require Import List Bool Arith.
 From PG Require Import Base.ListSet Graph.MGraph C03.PState Gen.Gen_Preds Tie.PredsProofs C16.Model C16.Spec.
 Import ListNotations.
@@ -34,16 +39,13 @@ Proof.
     + apply orb_true_r.
 Qed.
 
-Lemma no_lone_not_lone s : no_lone_circle_ps s = true -> pstate_eqb s lone_vu = false /\ pstate_eqb s lone_uv = false.
-Proof.
-  intros H.
-  assert (A : negb (no_lone_circle_ps s) || (negb (pstate_eqb s lone_vu) && negb (pstate_eqb s lone_uv)) = true).
-  { revert s H. intros s _. revert s. apply forall_pstate. vm_compute. reflexivity. }
-  rewrite H in A. simpl in A. apply andb_true_iff in A. destruct A as [A B].
-  apply negb_true_iff in A. apply negb_true_iff in B. tauto.
-Qed.
+(* C16's domain of pair states *)
+Definition dom16 (s : pstate) : bool := valid_pag_ps s && no_lone_circle_ps s.
 
-(* ---------------- the translator's evaluator and the printed Gallina agree (every cell) ---------------- *)
+Lemma dom16_pst g : pag_pairs g -> no_lone_circle g -> forall u v, dom16 (pst g u v) = true.
+Proof. intros Hp Hn u v. unfold dom16. rewrite (Hp u v), (no_lone_circle_pst g Hn u v). reflexivity. Qed.
+
+(* ---------------- the translator's evaluator and the printed Gallina agree (every cell, all 64 states) ---------------- *)
 Lemma cells_C16 :
   gen_possibly_directed_enum = gen_possibly_directed_cells /\
   gen_poss_desc_step_enum = gen_poss_desc_step_cells /\
@@ -53,65 +55,31 @@ Lemma cells_C16 :
   gen_semi_step_cutoff_enum = gen_semi_step_cutoff_cells.
 Proof. repeat split; vm_compute; reflexivity. Qed.
 
-(* ---------------- complete case analyses: generated = model, with the exact exception set ---------------- *)
-Lemma possibly_directed_fwd_exact s : gen_possibly_directed false s = semi_ok_ps s || pstate_eqb s lone_vu.
-Proof. apply eqb_eq_bool. revert s. apply forall_pstate. vm_compute. reflexivity. Qed.
+(* ---------------- complete case analyses over the domain: generated = model ---------------- *)
+Lemma possibly_directed_fwd_dom s : dom16 s = true -> gen_possibly_directed false s = semi_ok_ps s.
+Proof. revert s. apply on_dom1. vm_compute. reflexivity. Qed.
 
-Lemma possibly_directed_rev_exact s : gen_possibly_directed true s = semi_ok_ps (flip s) || pstate_eqb s lone_uv.
-Proof. apply eqb_eq_bool. revert s. apply forall_pstate. vm_compute. reflexivity. Qed.
+Lemma possibly_directed_rev_dom s : dom16 s = true -> gen_possibly_directed true s = semi_ok_ps (flip s).
+Proof. revert s. apply (on_dom1 dom16 (gen_possibly_directed true) (fun s => semi_ok_ps (flip s))). vm_compute. reflexivity. Qed.
 
-Lemma poss_desc_step_exact s : gen_poss_desc_step s = semi_ok_ps s || pstate_eqb s lone_vu.
-Proof. apply eqb_eq_bool. revert s. apply forall_pstate. vm_compute. reflexivity. Qed.
+Lemma poss_desc_step_dom s : dom16 s = true -> gen_poss_desc_step s = semi_ok_ps s.
+Proof. revert s. apply on_dom1. vm_compute. reflexivity. Qed.
 
-Lemma poss_anc_step_exact s : gen_poss_anc_step s = semi_ok_ps (flip s) || pstate_eqb s lone_uv.
-Proof. apply eqb_eq_bool. revert s. apply forall_pstate. vm_compute. reflexivity. Qed.
+Lemma poss_anc_step_dom s : dom16 s = true -> gen_poss_anc_step s = semi_ok_ps (flip s).
+Proof. revert s. apply (on_dom1 dom16 gen_poss_anc_step (fun s => semi_ok_ps (flip s))). vm_compute. reflexivity. Qed.
 
-Lemma semi_edge_ok_exact s : gen_semi_edge_ok s = semi_ok_ps s.
-Proof. apply eqb_eq_bool. revert s. apply forall_pstate. vm_compute. reflexivity. Qed.
+Lemma semi_edge_ok_dom s : dom16 s = true -> gen_semi_edge_ok s = semi_ok_ps s.
+Proof. revert s. apply on_dom1. vm_compute. reflexivity. Qed.
 
-Lemma semi_step_main_exact s : gen_semi_step_main s = semi_ok_ps s || pstate_eqb s lone_vu.
-Proof. apply eqb_eq_bool. revert s. apply forall_pstate. vm_compute. reflexivity. Qed.
+Lemma semi_step_main_dom s : dom16 s = true -> gen_semi_step_main s = semi_ok_ps s.
+Proof. revert s. apply on_dom1. vm_compute. reflexivity. Qed.
 
-Lemma semi_step_cutoff_exact s : gen_semi_step_cutoff s = semi_ok_ps s || pstate_eqb s lone_vu.
-Proof. apply eqb_eq_bool. revert s. apply forall_pstate. vm_compute. reflexivity. Qed.
+Lemma semi_step_cutoff_dom s : dom16 s = true -> gen_semi_step_cutoff s = semi_ok_ps s.
+Proof. revert s. apply on_dom1. vm_compute. reflexivity. Qed.
 
-(* the BFS step handed to single_source_shortest_mixed_path is the neighbour test and _possibly_directed with the flag
-   each caller fixes *)
-Lemma poss_steps_are_possibly_directed s :
-  gen_poss_desc_step s = nbr s && gen_possibly_directed false s /\
-  gen_poss_anc_step s = nbr s && gen_possibly_directed true s.
-Proof.
-  split; apply eqb_eq_bool; revert s; apply forall_pstate; vm_compute; reflexivity.
-Qed.
-
-(* ---------------- statements over graphs (used by Props/C16.v) ---------------- *)
-(* every pair, every graph: the only deviation is the lone-circle pair *)
-Definition repo_pred_semi_exact_stmt : Prop :=
-  forall g u v,
-    gen_semi_edge_ok (pst g u v) = semi_ok g u v /\
-    gen_possibly_directed false (pst g u v) = semi_ok g u v || pstate_eqb (pst g u v) lone_vu /\
-    gen_possibly_directed true (pst g u v) = semi_ok g v u || pstate_eqb (pst g u v) lone_uv /\
-    gen_poss_desc_step (pst g u v) = semi_ok g u v || pstate_eqb (pst g u v) lone_vu /\
-    gen_poss_anc_step (pst g u v) = semi_ok g v u || pstate_eqb (pst g u v) lone_uv /\
-    gen_semi_step_main (pst g u v) = semi_ok g u v || pstate_eqb (pst g u v) lone_vu /\
-    gen_semi_step_cutoff (pst g u v) = semi_ok g u v || pstate_eqb (pst g u v) lone_vu.
-
-Lemma repo_pred_semi_exact : repo_pred_semi_exact_stmt.
-Proof.
-  intros g u v. rewrite (semi_ok_pst g u v), (semi_ok_pst_rev g u v).
-  repeat split.
-  - apply semi_edge_ok_exact.
-  - apply possibly_directed_fwd_exact.
-  - apply possibly_directed_rev_exact.
-  - apply poss_desc_step_exact.
-  - apply poss_anc_step_exact.
-  - apply semi_step_main_exact.
-  - apply semi_step_cutoff_exact.
-Qed.
-
-(* on the graphs of C16's quantifier: generated predicate = model predicate *)
+(* ---------------- the statement over graphs (Props/C16.v) ---------------- *)
 Definition repo_pred_semi_stmt : Prop :=
-  forall g, no_lone_circle g -> forall u v,
+  forall g, pag_pairs g -> no_lone_circle g -> forall u v,
     gen_semi_edge_ok (pst g u v) = semi_ok g u v /\
     gen_possibly_directed false (pst g u v) = semi_ok g u v /\
     gen_possibly_directed true (pst g u v) = semi_ok g v u /\
@@ -122,23 +90,36 @@ Definition repo_pred_semi_stmt : Prop :=
 
 Lemma repo_pred_semi : repo_pred_semi_stmt.
 Proof.
-  intros g H u v. destruct (repo_pred_semi_exact g u v) as [A [B [C [D [E [F G]]]]]].
-  destruct (no_lone_not_lone _ (no_lone_circle_pst g H u v)) as [N1 N2].
-  rewrite N1 in B, D, F, G. rewrite N2 in C, E. rewrite orb_false_r in B, C, D, E, F, G. tauto.
+  intros g Hp Hn u v. pose proof (dom16_pst g Hp Hn u v) as Hd.
+  rewrite (semi_ok_pst g u v), (semi_ok_pst_rev g u v).
+  repeat split.
+  - apply semi_edge_ok_dom, Hd.
+  - apply possibly_directed_fwd_dom, Hd.
+  - apply possibly_directed_rev_dom, Hd.
+  - apply poss_desc_step_dom, Hd.
+  - apply poss_anc_step_dom, Hd.
+  - apply semi_step_main_dom, Hd.
+  - apply semi_step_cutoff_dom, Hd.
 Qed.
 
-(* the exception is real: on u o- v (only C (v,u)) the code takes the step u -> v, the model does not *)
-Definition lone_graph : mgraph := MkG [0; 1] [] [] [] [(1, 0)].
-Lemma repo_pred_semi_lone_circle_differs :
-  pst lone_graph 0 1 = lone_vu /\ semi_ok lone_graph 0 1 = false /\
-  gen_possibly_directed false (pst lone_graph 0 1) = true /\ gen_semi_step_main (pst lone_graph 0 1) = true /\
-  gen_semi_edge_ok (pst lone_graph 0 1) = false.
-Proof. vm_compute. repeat split; reflexivity. Qed.
+(* hence the model's possible-descendant / possible-ancestor searches step along the generated predicate *)
+Definition repo_pred_poss_step_filters_stmt : Prop :=
+  forall g, pag_pairs g -> no_lone_circle g -> forall v,
+    filter (fun w => semi_ok g v w) (V g) = filter (fun w => gen_poss_desc_step (pst g v w)) (V g) /\
+    filter (fun w => semi_ok g w v) (V g) = filter (fun w => gen_poss_anc_step (pst g v w)) (V g).
 
-(* hypotheses are satisfiable on a non-trivial graph: 0 o-> 1 <-> 2, 0 o-o 2 *)
+Lemma repo_pred_poss_step_filters : repo_pred_poss_step_filters_stmt.
+Proof.
+  intros g Hp Hn v. split; apply filter_ext; intros w; destruct (repo_pred_semi g Hp Hn v w) as [_ [_ [_ [A [B _]]]]];
+    congruence.
+Qed.
+
+(* the hypotheses are satisfiable on a non-trivial graph: 0 o-> 1 <-> 2, 0 o-o 2 *)
 Example repo_pred_semi_nonvacuous :
   let g := MkG [0; 1; 2] [(0, 1)] [(1, 2)] [] [(1, 0); (0, 2); (2, 0)] in
-  no_lone_circle g /\ gen_possibly_directed false (pst g 0 1) = true /\ gen_possibly_directed false (pst g 1 2) = false /\
+  no_lone_circle g /\
+  forallb (fun a => forallb (fun b => valid_pag_ps (pst g a b)) [0;1;2]) [0;1;2] = true /\
+  gen_possibly_directed false (pst g 0 1) = true /\ gen_possibly_directed false (pst g 1 2) = false /\
   gen_semi_step_main (pst g 0 2) = true /\ gen_semi_step_main (pst g 1 0) = false.
 Proof.
   simpl. split; [|vm_compute; repeat split; reflexivity].
